@@ -237,7 +237,7 @@ def rich_history(rng: random.Random, version: str | None, length: int) -> list[l
     steps: list[list] = []
     for node in (1, 2):
         gen.known[node] = {0, 1}
-        steps.append(["restore", node, {"type": 17, "version": "2.0", "sleeping": rng.random() < 0.5,
+        steps.append(["restore", node, {"type": rng.choice([17, 17, 18, 0]), "version": "2.0", "sleeping": rng.random() < 0.5,
                                         "children": {"0": [3, "c0", {"2": "1"} if rng.random() < 0.5 else {}], "1": [3, "c1", {}]}}])
     proto = spec.pmap(version) or "1.4"
     for _ in range(length):
